@@ -29,9 +29,12 @@ def check_instantiate_builder(ctx, m, g):
         return
     f = fns[0]
     params = [(i["pat"].get("name"), A.type_str(i["ty"])) for i in f["inputs"] if not i.get("recv")]
-    want_p = [("code_id", "u64")] + [(p["name"], p["ty_s"]) for p in h.params]
-    if [(n, A.compact(t)) for n, t in params] != [(n, A.compact(t)) for n, t in want_p]:
-        ctx.violation("C10.ibuilder", key + ["params"], C.where(m, f), want_p, params, STATEMENT)
+    # the first parameter is the code id (whatever the generator calls it; it must not be one of the handler's own argument names,
+    # which would not even compile), the others are the handler's arguments in order
+    cid = params[0][0] if params else None
+    want_p = [(cid, "u64")] + [(p["name"], p["ty_s"]) for p in h.params]
+    if [(n, A.compact(t)) for n, t in params] != [(n, A.compact(t)) for n, t in want_p] or cid in [p["name"] for p in h.params]:
+        ctx.violation("C10.ibuilder", key + ["params"], C.where(m, f), [("<code id>", "u64")] + want_p[1:], params, STATEMENT)
     stmts, tail = A.block_parts(f["body"])
     env = {}
     ok = True
@@ -64,7 +67,7 @@ def check_instantiate_builder(ctx, m, g):
         if b["k"] == "call" and A.path_ids(b["func"])[-2:] == ["InstantiateBuilder", "new"] and len(b["args"]) == 2:
             a0 = A.path_ids(A.strip_expr(b["args"][0]))
             a1 = A.path_ids(A.strip_expr(b["args"][1]))
-            fin = bool(a0) and env.get(a0[0]) == "encoded" and a1 == ["code_id"]
+            fin = bool(a0) and env.get(a0[0]) == "encoded" and a1 == [cid]
     if not ok or step != ["new", "encode"] or not fin:
         ctx.violation("C10.ibuilder", key + ["body"], C.where(m, f), "InstantiateMsg::new(params) -> to_json_binary(&msg)? -> InstantiateBuilder::new(msg, code_id)", {"steps": step, "final": fin}, STATEMENT,
                       "InstantiateBuilder::emit")
